@@ -9,6 +9,7 @@ import (
 	"flag"
 	"fmt"
 	"os"
+	"path/filepath"
 	"sort"
 
 	"verif/internal/core"
@@ -19,7 +20,14 @@ func main() {
 	repo := flag.String("repo", "/repo", "repository to analyse")
 	verif := flag.String("verif", "/verif", "verification directory (evidence, known findings)")
 	replay := flag.String("replay", "", "replay file: only report the rule+construct named in it")
+	anchors := flag.String("anchors", "", "list of anchor functions (default: anchors.txt beside the bin directory of this executable)")
 	flag.Parse()
+	core.AnchorsFile = *anchors
+	if core.AnchorsFile == "" {
+		if exe, err := os.Executable(); err == nil {
+			core.AnchorsFile = filepath.Join(filepath.Dir(filepath.Dir(exe)), "anchors.txt")
+		}
+	}
 	args := flag.Args()
 	if len(args) < 1 {
 		usage()
@@ -52,6 +60,20 @@ func main() {
 		sort.Strings(ids)
 		for _, id := range ids {
 			fmt.Println(id)
+		}
+	case "anchors":
+		// the anchor names of the tree as it is (to regenerate anchors.txt
+		// deliberately, after the rule sets were adapted to a new function)
+		core.AnchorsFile = ""
+		for _, mod := range []string{"", "publish"} {
+			p, err := core.Load(filepath.Join(*repo, mod))
+			if err != nil {
+				fmt.Fprintln(os.Stderr, err)
+				os.Exit(2)
+			}
+			for _, n := range p.AnchorNames() {
+				fmt.Println(n)
+			}
 		}
 	case "quick", "thorough":
 		if len(args) != 2 {
